@@ -2244,7 +2244,7 @@ Section StmtCorrect.
       + destruct sg0; cbn [fin_pure eval]; rewrite He; f_equal; f_equal.
         * apply (cast_widen w0 w true z); auto.
         * apply (cast_widen w0 w false z); auto.
-      + unfold cast_il_exec. cbn [vt_w vt_sg ty_h ty_tok fin_pure eval].
+      + unfold cast_il_exec. cbn [vt_w vt_sg ty_h ty_tok fin_pure eval]. rewrite Elt, andb_false_r. cbn [andb]. rewrite orb_false_r.
         destruct (sg && sg0); cbn [fin_pure eval]; rewrite He; f_equal; f_equal; apply cast_narrow; auto; lia.
   Qed.
 
